@@ -454,7 +454,19 @@ func c06RunItems(c *core.Ctx, items []c06Item, web bool) {
 		}
 		if web {
 			eng := urlfilter.NewEngine(util.Storage(lt...))
-			req := rules.NewRequest("http://ads.com/page", "http://site.com/", rules.TypeDocument)
+			src := "http://site.com/"
+			hasDomain := false
+			for _, it := range perm {
+				hasDomain = hasDomain || len(it.Spec.Domains) > 0
+			}
+			if !hasDomain && c.Rng.Intn(3) == 0 {
+				// The referrer as a user typed it: rules match it whatever its
+				// letter case ($domain values are compared as written, so this is
+				// only done when no rule carries one).
+				src = []string{"http://SITE.com/", "HTTP://Site.COM/Landing", "http://site.COM"}[c.Rng.Intn(3)]
+				c.Event("engine_requests_with_capital_letters_in_the_referrer", 1)
+			}
+			req := rules.NewRequest("http://ads.com/page", src, rules.TypeDocument)
 			judge("Engine.MatchRequest", eng.MatchRequest(req).GetBasicResult())
 			// Without a referrer the source rules play no role.
 			var only []c06Item
